@@ -565,6 +565,20 @@ def rule_sanitiser(rep):
             "some path through LRTable.__init__ with calc_finish_flags on skips sort_state_actions",
             node=f.node,
         )
+        # everything that walks state.actions in LRTable.__init__ does so after the sort
+        unsorted = g.reach([g.entry], avoid_nodes=srt, avoid_edges=on)
+        consumers = g.nodes_calling("calc_conflicts_and_dynamic_terminals") + g.nodes_calling("calc_finish_flags")
+        r.floor("consumers of the action order in LRTable.__init__", len(consumers), 2)
+        for n, c in consumers:
+            r.check(
+                n not in unsorted,
+                f"{call_name(c)} runs on sorted actions",
+                f"LRTable.__init__:{call_name(c)}:after-sort",
+                f"{call_name(c)} can run before sort_state_actions: it walks state.actions in the seed-dependent "
+                "order in which the lookahead sets were iterated (conflict lists / finish flags then differ "
+                "between hash seeds and between a computed and a loaded table)",
+                node=n.ast,
+            )
         # sort is stable & total only if it replaces state.actions by an ordered dict of the sorted items
         ssa = repo.func("parglare.tables.LRTable.sort_state_actions")
         r.check(
